@@ -9,6 +9,7 @@ mod h2;
 mod payload;
 mod ptrsweep;
 mod shim;
+mod traitcheck;
 
 fn main() {
     let args: Vec<String> = std::env::args().collect();
@@ -17,6 +18,7 @@ fn main() {
         Some("h1") => h1::main(),
         Some("h2") => h2::main(&args[2..]),
         Some("ptr") => ptrsweep::main(),
+        Some("traits") => traitcheck::main(),
         _ => {
             eprintln!("usage: kvharness h1|h2|ptr");
             std::process::exit(2);
